@@ -15,12 +15,12 @@ TECHNIQUE = "runtime monitoring: differential observer across the real save/load
 RULE = ("seeded lists of 1-4 integer-tick sequences, well-formed after channel erasure (the writer emits channel 0), velocities "
         "1-127, time signatures (power-of-two denominators) and all 15 keys at arbitrary ticks on several carrier tracks but never "
         "two different signatures of one kind on one tick, simultaneous events, abutting notes, leading rests, empty sequences, "
-        "control changes; saved with the real sequences_save and re-loaded with the real sequences_load. Compared: sequence "
+        "control and program changes (also directly before a note after a rest); saved with the real sequences_save and re-loaded with the real sequences_load. Compared: sequence "
         "count/order, per-track (pitch, onset, duration, velocity) multisets, time signature in force (default 4/4) and key in "
         "force at every tick up to the end. Non-trivial: >= 2 notes and a signature or key.")
 PLAN = {"quick": {"cases": 1200, "jobs": 4, "timeout": 600},
         "thorough": {"cases": 60000, "jobs": 16, "timeout": 3000, "budget_s": 420}}
-FLOORS = {"quick": {"c12.tracks_compared": 2000, "c12.signature_cases": 600, "c12.key_cases": 600, "c12.raw_file_checked": 1000},
+FLOORS = {"quick": {"c12.tracks_compared": 2000, "c12.signature_cases": 600, "c12.key_cases": 600, "c12.raw_file_checked": 1000, "c12.program_change_cases": 150},
           "thorough": {"c12.tracks_compared": 100000}}
 SIGS = [(4, 4), (3, 4), (6, 8), (5, 4), (2, 2), (7, 8), (12, 8), (3, 16), (1, 1), (9, 8)]
 
@@ -56,8 +56,11 @@ def make_case(rng, i, tier):
             if ks_ticks.get(t, k) == k:
                 ks_ticks[t] = k
                 extra.append(["ks", t, k])
-        if rng.random() < 0.3:
-            extra += gen.rand_extras(rng, rng.randint(1, 2), 150, kinds=("cc",))
+        if rng.random() < 0.45:
+            # control changes are written to the file, program changes are not: neither may disturb the delta times
+            # (placed on note onsets as well, i.e. directly before a note after a rest)
+            ticks = [x[2] for x in notes] + [rng.randrange(0, 170) for _ in range(3)]
+            extra += gen.rand_extras(rng, rng.randint(1, 3), 150, ticks=ticks, kinds=("cc", "pc", "pc"))
         spec = {"notes": notes, "extra": extra, "start": rng.choice(["abs", "rel", "both"])}
         if rng.random() < 0.25:
             spec["pad"] = rng.randrange(0, 250)
@@ -141,6 +144,8 @@ def run(case, ctx):
         LOG.n("c12.signature_cases")
     if ks_all:
         LOG.n("c12.key_cases")
+    if any(e[0] == "pc" for sq in case["seqs"] for e in sq["extra"]):
+        LOG.n("c12.program_change_cases")
     return {"nontrivial": nn >= 2 and bool(ts_all or ks_all), "fails": fails,
             "shape": (len(seqs), min(nn, 10), len(ts_all), len(ks_all)),
             "observed": {"tracks": len(seqs), "notes": nn, "ts_in_force": exp_ts[:4], "key_in_force": exp_ks[:4]}}
